@@ -21,7 +21,11 @@ class BatchFailure(Exception):
 
 FAIL_EXC = {"BatchFailure": BatchFailure, "StopIteration": StopIteration, "KeyError": KeyError, "ValueError": ValueError,
             "RuntimeError": RuntimeError, "IndexError": IndexError, "AttributeError": AttributeError, "TypeError": TypeError,
-            "ZeroDivisionError": ZeroDivisionError, "OSError": OSError}
+            "ZeroDivisionError": ZeroDivisionError, "OSError": OSError,
+            # classes that retry / recovery logic likes to single out
+            "MemoryError": MemoryError, "RecursionError": RecursionError, "TimeoutError": TimeoutError, "BrokenPipeError": BrokenPipeError,
+            "EOFError": EOFError, "AssertionError": AssertionError, "NotImplementedError": NotImplementedError,
+            "FloatingPointError": FloatingPointError, "InterruptedError": InterruptedError}
 
 
 OWN_EXC = ["AgentNotFoundError", "DuplicateAgentError", "ComponentNotFoundError", "SystemNotFoundError", "ModelCompleteError"]
@@ -207,6 +211,26 @@ class StableLookup(__import__("ECAgent.Environments", fromlist=["x"]).LookupGene
         return isinstance(other, StableLookup) and self.table == other.table
 
     __hash__ = None
+
+
+class StableTags(__import__("importlib").import_module("ECAgent.Tags").TagLibrary):
+    """A tag library handed to every run as ONE parameter value (the runs share their tag vocabulary; the global library
+    cannot serve several models in one process). repr and equality are stable across the pickle boundary."""
+
+    def __repr__(self):
+        return f"StableTags({self.itemize()!r})"
+
+    def __eq__(self, other):
+        return isinstance(other, StableTags) and self.itemize() == other.itemize()
+
+    __hash__ = None
+
+
+def stable_tags(names):
+    lib = StableTags()
+    for n_ in names:
+        lib.add_tag(n_)
+    return lib
 
 
 class BatchModel(Model):
